@@ -11,27 +11,27 @@ import (
 
 // Opts restricts GenLayout.
 type Opts struct {
-	Kinds      []string // rule types to choose from (default AllKinds); a single "" entry = no sharded table
-	MaxPerSlice int     // max tables per slice for hash-like rules (default 4)
-	MaxPeriods int      // max calendar periods in total (default 10)
-	Globals    int      // number of global tables: -1 none, 0 random 0..2, n>0 exactly n (max 2)
-	NoChild    bool     // never configure the linked table
-	NoSeq      bool     // never configure a global sequence
-	SameGlobals bool    // g2 gets g1's layout (Gaea documents that global tables used together must be configured alike)
+	Kinds       []string // rule types to choose from (default AllKinds); a single "" entry = no sharded table
+	MaxPerSlice int      // max tables per slice for hash-like rules (default 4)
+	MaxPeriods  int      // max calendar periods in total (default 10)
+	Globals     int      // number of global tables: -1 none, 0 random 0..2, n>0 exactly n (max 2)
+	NoChild     bool     // never configure the linked table
+	NoSeq       bool     // never configure a global sequence
+	SameGlobals bool     // g2 gets g1's layout (Gaea documents that global tables used together must be configured alike)
 }
 
 // mycat_long / mycat_string partition tables for 1..8 shards: count, length
 // with sum(count)=shards and sum(count*length)=1024.
 var partitionTables = map[int][][2]string{
-	1: {{"1", "1024"}},
-	2: {{"2", "512"}, {"1,1", "256,768"}},
-	3: {{"2,1", "256,512"}, {"1,2", "512,256"}},
-	4: {{"4", "256"}, {"2,2", "128,384"}},
-	5: {{"4,1", "128,512"}},
-	6: {{"4,2", "128,256"}, {"2,4", "256,128"}},
-	7: {{"6,1", "128,256"}},
-	8: {{"8", "128"}},
-	9: {{"8,1", "64,512"}},
+	1:  {{"1", "1024"}},
+	2:  {{"2", "512"}, {"1,1", "256,768"}},
+	3:  {{"2,1", "256,512"}, {"1,2", "512,256"}},
+	4:  {{"4", "256"}, {"2,2", "128,384"}},
+	5:  {{"4,1", "128,512"}},
+	6:  {{"4,2", "128,256"}, {"2,4", "256,128"}},
+	7:  {{"6,1", "128,256"}},
+	8:  {{"8", "128"}},
+	9:  {{"8,1", "64,512"}},
 	10: {{"8,2", "64,256"}},
 	12: {{"8,4", "64,128"}},
 	16: {{"16", "64"}},
